@@ -68,6 +68,31 @@ func liesCatalogue() []liesItem {
 	for rep := 0; rep < 5; rep++ {
 		out = append(out, liesItem{"blocks", "other-branch", "long-instant", "", 20 + rep})
 	}
+	// hostile constants in everything a peer can announce: one entry per variant
+	// (plain regime; the fee overflows and the header also against a v2-only
+	// chain above the require height)
+	for a := 0; a < 2; a++ {
+		out = append(out, liesItem{"relay-header", "hostile-timestamp", "plain", "", 10 + a}, liesItem{"relay-header", "hostile-timestamp", "instant", "", 10 + a})
+	}
+	for a := 0; a < hostileV2Variants+hostileV1Variants; a++ {
+		out = append(out, liesItem{"relay-outline", "hostile-embedded", "plain", "", 9 + a}) // 9 = one round of the variants: arg 0 and 1 are taken by key()
+	}
+	out = append(out, liesItem{"relay-outline", "hostile-embedded", "instant", "", 9})
+	for a := 0; a < 4; a++ {
+		out = append(out, liesItem{"relay-outline", "hostile-missing", "plain", "", 4 + a})
+	}
+	out = append(out, liesItem{"relay-outline", "hostile-missing", "instant", "", 4})
+	for a := 0; a < 5; a++ {
+		out = append(out, liesItem{"relay-outline", "hostile-field", "plain", "", 5 + a})
+	}
+	for a := 0; a < hostileV2Variants; a++ {
+		// variant a, basis tip / parent / three back in turn
+		out = append(out, liesItem{"relay-txset", "hostile-txn", "plain", "", hostileV2Variants*(3+a%3) + a})
+	}
+	out = append(out, liesItem{"relay-txset", "hostile-txn", "instant", "", hostileV2Variants * 3})
+	for a := 0; a < 4; a++ {
+		out = append(out, liesItem{"relay-txset", "hostile-basis", "plain", "", 8 + a + 4*(a%2)}) // benign / hostile set in turn
+	}
 	for _, regime := range []string{"plain", "instant"} {
 		batch := liesChainLen
 		if regime == "instant" {
@@ -86,6 +111,9 @@ func liesCatalogue() []liesItem {
 			for _, kind := range p2px.ByzKinds[rpc] {
 				if kind == "too-few-not-last" || kind == "empty-not-last" {
 					continue // need a download of several requests: regime "long" above
+				}
+				if strings.HasPrefix(kind, "hostile") {
+					continue // enumerated by variant below
 				}
 				switch {
 				case positional[rpc+"/"+kind]:
